@@ -92,6 +92,17 @@ ADDITIONAL GUIDANCE FOR ROUND 5: four rounds of seeding have covered the central
     return base.replace("\n\nALREADY TRIED", extra + "\n\nALREADY TRIED", 1)
 
 
+def prompt6(pid: str) -> str:
+    """Round 6 (after the defect-hunt repairs): three changes, aimed at the code the last 25 commits changed."""
+    base = prompt3(pid).replace(f"/tmp/seed3-{pid}", f"/tmp/seed6-{pid}")
+    base = base.replace("TASK: produce FOUR different, independent changes", "TASK: produce THREE different, independent changes")
+    base = base.replace("For EACH change k in 1..4", "For EACH change k in 1..3")
+    extra = """
+
+ADDITIONAL GUIDANCE FOR ROUND 6: the repository has just received about twenty-five small bug-fix commits (run `git log -25 --stat` and `git log -25 -p` in your worktree to see them). Freshly repaired code is where regressions happen: a later "clean-up" that undoes half of a fix, simplifies a guard a fix introduced, merges a helper a fix split off, moves a statement a fix had carefully placed (validate-then-store order, restore-on-error, copy-before-return, the key a table is filed under, which platforms a conversion applies to, which keyword arguments are handed on), or re-introduces the old behaviour for one platform / one object kind only. Aim your three changes at such places where they matter for THIS property; a plain revert of a whole fix commit is too easy - prefer a partial or disguised one, or a new fault in the repaired function."""
+    return base.replace("\n\nALREADY TRIED", extra + "\n\nALREADY TRIED", 1)
+
+
 def prompt_hunt(pid: str) -> str:
     """Defect hunt: an independent sub-agent looks for inputs / histories on which the CURRENT tree breaks the property.
     It gets the property text, a scratch worktree, and one line per defect that is already known (so that effort goes
@@ -135,6 +146,9 @@ Finally reply with a short summary: one paragraph per finding (clause, input, ob
 
 
 if __name__ == "__main__":
+    if len(sys.argv) > 2 and sys.argv[2] == "6":
+        print(prompt6(sys.argv[1]))
+        sys.exit(0)
     if len(sys.argv) > 2 and sys.argv[2] == "hunt":
         print(prompt_hunt(sys.argv[1]))
         sys.exit(0)
